@@ -133,7 +133,7 @@ func run(c Sx) Result {
 			fails = append(fails, fmt.Sprintf(f, a...))
 		}
 	}
-	nDelEntry, nUpdEntry, nEmbDel, nNil, nDirtyOps, nGen := 0, 0, 0, 0, 0, 0
+	nDelEntry, nUpdEntry, nEmbDel, nNil, nDirtyOps, nGen, nGetNode := 0, 0, 0, 0, 0, 0, 0
 	tag := map[string]bool{}
 
 gens:
@@ -173,6 +173,44 @@ gens:
 				gets = append(gets, Opt(len(v) > 0, B(v)))
 				if !bytes.Equal(v, ref[string(k)]) {
 					fail("gen %d: Get(%x)=%x, reference map has %x", gi, k, v, ref[string(k)])
+				}
+			case 3:
+				// GetNode by path through whatever is unresolved (as the snap handler does)
+				path := AsBytes(l[1])
+				if !hexPath(path) {
+					panic("hxlib: GetNode path is not a hex path")
+				}
+				blob, _, err := t.GetNode(trie.VerifHexToCompact(path))
+				switch {
+				case err != nil:
+					gets = append(gets, L(I(2)))
+				case len(blob) == 0:
+					gets = append(gets, L(I(0)))
+				default:
+					gets = append(gets, L(I(1), B(blob)))
+					if crypto256(blob) == (common.Hash{}) {
+						fail("gen %d: GetNode returned an unhashable blob", gi)
+					}
+				}
+				nGetNode++
+			case 4:
+				// Prove: reads nodes through the reader, must leave the session alone
+				k := AsBytes(l[1])
+				pdb := rawdb.NewMemoryDatabase()
+				if err := t.Prove(k, pdb); err != nil {
+					fail("gen %d: Prove(%x): %v", gi, k, err)
+				}
+			case 5:
+				// full node iteration: reads every node, must leave the session alone
+				nit, err := t.NodeIterator(nil)
+				if err != nil {
+					fail("gen %d: NodeIterator: %v", gi, err)
+				} else {
+					for nit.Next(true) {
+					}
+					if nit.Error() != nil {
+						fail("gen %d: node iteration: %v", gi, nit.Error())
+					}
 				}
 			default:
 				panic("hxlib: unknown op")
@@ -382,6 +420,9 @@ gens:
 	if nNil > 0 {
 		tag["nil-set"] = true
 	}
+	if nGetNode > 0 {
+		tag["getnode"] = true
+	}
 	for t := range tag {
 		res.Tags = append(res.Tags, t)
 	}
@@ -429,7 +470,7 @@ func diffDump(a, b []kv) string {
 func main() {
 	Main(Family{
 		ID:   "c07",
-		Rule: "histories of 1-4 trie sessions (trie.New at the current root, Update/Delete/Get, Commit, triedb.Update+Commit, reopen) over one rawdb memory database through triedb with the hash scheme and the path scheme; keys of three styles (1-3 byte keys over a 4-symbol alphabet incl. keys that are prefixes of others, 1-2 byte keys with wide first nibbles, 32-byte keys sharing long prefixes); values of 1-3, 1-40 and 32-40 bytes so that nodes cross the 32-byte embedding boundary in both directions; sessions of kinds random-mix / delete-everything / delete-everything-and-reinsert (same or new values) / rewrite-same-values / read-only; non-trivial: >= 2 sessions, >= 3 written nodes, >= 4 updates",
+		Rule: "histories of 1-4 trie sessions (trie.New at the current root, Update/Delete/Get, Commit, triedb.Update+Commit, reopen) over one rawdb memory database through triedb with the hash scheme and the path scheme; keys of three styles (1-3 byte keys over a 4-symbol alphabet incl. keys that are prefixes of others, 1-2 byte keys with wide first nibbles, 32-byte keys sharing long prefixes); values of 1-3, 1-40 and 32-40 bytes so that nodes cross the 32-byte embedding boundary in both directions; GetNode(path) / Prove / full NodeIterator reads interleaved with the updates (reads through unresolved nodes before Update/Delete+Commit on the same trie instance); sessions of kinds random-mix / read-a-path-then-delete / delete-everything / delete-everything-and-reinsert (same or new values) / rewrite-same-values / read-only; non-trivial: >= 2 sessions, >= 3 written nodes, >= 4 updates",
 		Gen:  gen,
 		Run:  run,
 	})
